@@ -100,7 +100,7 @@ def gen_stmts(rng, nglob, locs, fidx, skip, allow_if=True, allow_let=True, n=Non
     for _ in range(n):
         k = rng.weighted([(25 if nglob else 0, "gset"), (15 if allow_let else 0, "let"), (30, "eprint"), (12 if skip else 0, "print"),
                           (0 if in_end else 18, "fset"), (12 if allow_if else 0, "if"),
-                          (18 if ETH[0] and not in_end else 0, "mac"), (8 if ETH[0] and not in_end else 0, "eprintmac")])
+                          (34 if ETH[0] and not in_end else 0, "mac"), (8 if ETH[0] and not in_end else 0, "eprintmac")])
         if k == "mac":
             out.append(["mac", rng.choice(["src", "dst"]), rng.choice(MACS)])
             continue
